@@ -25,6 +25,11 @@ CHECK_DEADLOCK FALSE
 _installed = False
 
 
+# strained cages and polycycles: ring-closing queries whose matched cycle has chords in the target (closure bookkeeping of the matcher)
+CAGES = ['C1C2C3C2C4C1C34', 'C1C23C(C3)C12', 'C12C3C4C1C5C2C3C45', 'C12C3C1C23', 'C1C2C1C2', 'C1CC2CC1C2', 'C12CC1C2', 'C1C2CC3CC1CC(C2)C3', 'C1CC2CCC1C2', 'C1C2CC12',
+         'C12C3C4C1C5C4C3C25', 'C1CC23CCC2(C1)CC3', 'C1C2C3CC1C23', 'C1CC2C3CC1C23', 'c1ccc2ccccc2c1', 'C1CCC2CCCCC2C1', 'C1CC2(C1)CCC2', 'C1=CC2C=CC1C=C2']
+
+
 def bits(v):
     return [k for k in range(64) if v >> k & 1]
 
@@ -101,11 +106,16 @@ def run(ck):
     corp = [s for s in chy.corpus() if len(s) <= 70]
     special = ['[Na+].[Cl-]', 'C[Fe]C', 'C[Zn]C', '[13CH4]', 'C[CH2]', 'CC(=O)[O-]', 'C[N+](C)(C)C', 'C1CCCCCCCCCCC1', 'C1CC12CC2', '[Cu+2].[O-]C=O.[O-]C=O', 'c1cc[nH]c1',
                'N=[N+]=[N-]', 'CN=[N+]=[N-]', 'CS(=O)(=N)C', 'C[N+](=O)[O-]', 'CN(=O)=O', 'O=S(=O)(O)O', 'CC#N=O'.replace('#N=O', '#[N+][O-]'), '[2H]C([2H])([2H])O', '[18O]=C=O', '[Rn]', '[Xe]', '[At]', '[Og]', '[Ts]', '[Lv]', '[Ra+2]', '[La+3]', '[U]', '[Ba+2].[O-2]', '[Sn]', '[Po]', '[Ge]', '[As]']
-    targets = chy.pick(corp, 50 if ck.quick else 700, ck.seed) + special
+    targets = chy.pick(corp, 50 if ck.quick else 700, ck.seed) + special + CAGES
     import importlib
     nrules = None
     cases = []
     for k, t in enumerate(targets):
+        if t in CAGES:
+            qs = ['C1CC1', 'C1CCC1', 'C1CCCC1', 'C1CCCCC1', 'C1CC1C', 'C1CCC1C', 'C(C)(C)C', '[C;r3]', '[C;r4]1[C;r4][C;r4][C;r4]1']
+            for q in qs:
+                cases.append({'key': f'{q}|{t}', 'q': q, 't': t, 'thiele': False, 'filter': False, 'scope': False, 'rs': rnd.randrange(1 << 30)})
+            continue
         qs = rnd.sample(SMARTS, 6 if ck.quick else 14) + rnd.sample(range(0, 60), 6 if ck.quick else 20) + (['[M]', '[A]', '[M;D0]'] if len(t) < 12 else [])
         for q in qs:
             cases.append({'key': f'{q}|{t}', 'q': q, 't': t, 'thiele': k % 2 == 0, 'filter': rnd.random() < .5, 'scope': rnd.random() < .25,
